@@ -184,12 +184,13 @@ Lemma stmt_N1 :
     c_follow c = true /\ conservative all_true all_true /\
     walk all_true all_true no_ign t c s1 roots = Done l1 /\
     walk all_true all_true no_ign t c s2 roots = Done l2 /\
-    In x l1 /\ ~ In x l2.
+    In x l1 /\ selected all_true all_true no_ign t c false roots x /\ ~ In x l2.
 Proof.
   exists wtree, wcfg1, [[]], sched_fifo, sched_lifo, [[nD; nF]], [], [nD; nF].
   destruct N1_witness as [H1 H2].
   split; [reflexivity|]. split; [intros ? ? ? ?; reflexivity|]. split; [exact H1|]. split; [exact H2|].
-  split; [now left|intros []].
+  split; [now left|]. split; [|intros []].
+  eapply stmt_sound; [exact H1|now left].
 Qed.
 
 Lemma stmt_N2 :
